@@ -126,6 +126,7 @@ let parse_op (s : mesh) (toks : string list) : op * string =
       (PropDrop (kd, n p), Printf.sprintf "PDrop %s %d" k p)
   | _ -> failwith ("bad op: " ^ String.concat " " toks)
 
+let no_inv = ref (try Sys.getenv "KDRIVER_NO_INV" = "1" with Not_found -> false)
 let () =
   let interactive = Array.length Sys.argv > 1 && Sys.argv.(1) = "-i" in
   let ic = if (not interactive) && Array.length Sys.argv > 1 then open_in Sys.argv.(1) else stdin in
@@ -152,6 +153,12 @@ let () =
                    pr "== %d %s -> Ok %s\n" !lineno echo
                      (match r with None -> "-" | Some h -> string_of_int (int_of_nat h))));
          dump !st;
+         (* decidable invariants of Kernel/InvB.v on the state just reached (model side only; diverted by lib/lockstep.py) *)
+         if not interactive && not !no_inv then begin
+           let v = valid_b !st in
+           let r = inv_report !st in
+           pr "#I valid=%d fail=%s\n" (b2i v) (String.concat "," (List.map (fun n -> string_of_int (int_of_nat n)) r))
+         end;
          if interactive then begin pr ".\n"; flush_out (); flush stdout end
          else if Buffer.length buf > (1 lsl 19) then flush_out ()
        end
